@@ -87,6 +87,18 @@ theorem host_first_fails_for_contract_breaking_hook :
     serverAddress e = .ok (str "lobby") ∧ beforeNul (str "lobby") ≠ beforeNul (playerVHost e) := by
   refine ⟨rfl, by decide⟩
 
+/-- Outside the domain of `host_first_of_client_address`: a `]` (or `[`) in a later NUL part of the client's
+    address, with no `:` anywhere, makes `netutil.Host` fail ("unexpected ']' in address"); the virtual host
+    then counts as empty and `startHandshake` sends the BACKEND's own host — the player's host is lost
+    (known finding `host-replaced-on-bracket`). -/
+theorem host_first_fails_on_bracket_in_later_part :
+    let e : Env := { mode := .none, bgSecret := [], serverAddr := str "10.0.0.1:25566", remoteAddr := str "1.2.3.4:5",
+                     id := List.replicate 16 0, props := [], propsNil := true, connType := .vanilla,
+                     vhostAddr := str "play.example.org" ++ [0] ++ str "a]b:25565", hook1 := none, hook2 := none }
+    serverAddress e = .ok (str "10.0.0.1") ∧
+    beforeNul (str "10.0.0.1") ≠ beforeNul (str "play.example.org" ++ [0] ++ str "a]b") := by
+  refine ⟨rfl, by decide⟩
+
 /-! ### B. legacy / BungeeGuard forwarding -/
 
 /-- legacy mode (no `HandshakeAddresser` on the server): exactly four NUL-joined fields, no Forge marker
